@@ -559,3 +559,23 @@ Lemma ops_nonempty :
   existsb (fun x => snd (fst x)) anon_ops = true ∧
   existsb (fun x => negb (snd (fst x))) anon_ops = true.
 Proof. vm_compute. split; reflexivity. Qed.
+
+(* ---- the ownership hypothesis is necessary --------------------------------------
+   REFUTED without it: two goroutines running the SAME splat program on the SAME
+   context (what happens when one dynblock-expanded body, which is bound to one
+   EvalContext, is shared by several goroutines and a for_each holds a splat:
+   expandBody.decodeSpec evaluates for_each with the body's single forEachCtx).
+   Goroutine 1 reads back goroutine 2's element (11 instead of 10), although
+   each goroutine's program is a well-formed SplatExpr.Value program. *)
+Lemma shared_ctx_refuted :
+  ∃ (sch : list (Z * op Z)) (ds : list (splat_desc Z)),
+    proj 1%Z sch = thread_prog ds ∧ proj 2%Z sch = thread_prog ds
+    ∧ (run_sched 0%Z ∅ sch 1%Z).2 ≠ (run 0%Z ∅ (proj 1%Z sch)).2.
+Proof.
+  exists [(1, Set_ 1%positive 10); (2, Set_ 1%positive 10); (2, Get 1%positive);
+          (2, Set_ 1%positive 11); (1, Get 1%positive); (1, Set_ 1%positive 11);
+          (1, Get 1%positive); (1, Clear 1%positive); (2, Get 1%positive);
+          (2, Clear 1%positive)]%Z,
+         [SplatKnown 1%positive [(10%Z, 1%nat); (11%Z, 1%nat)] None].
+  split; [reflexivity|]. split; [reflexivity|]. vm_compute. discriminate.
+Qed.
